@@ -193,7 +193,7 @@ func main() {
 	var scs []*scenario
 	if !run.Thorough() {
 		// every kind with small / medium / large sets, sizes rotated by seed
-		for ki, kind := range scenarioKinds {
+		for ki, kind := range generalKinds {
 			reps := 4
 			if kind == "C-converted-compressed" {
 				reps = 6
@@ -224,11 +224,38 @@ func main() {
 			if i%4 == 0 {
 				n = sizes[rs.Intn(len(sizes))]
 			}
-			scs = append(scs, &scenario{Kind: scenarioKinds[i%len(scenarioKinds)], Seed: rs.U64(), NRec: n, BaseH: bases[rs.Intn(len(bases))], SpendAll: rs.Intn(8) == 0, RealAlloc: rs.Intn(3) == 0})
+			scs = append(scs, &scenario{Kind: generalKinds[i%len(generalKinds)], Seed: rs.U64(), NRec: n, BaseH: bases[rs.Intn(len(bases))], SpendAll: rs.Intn(8) == 0, RealAlloc: rs.Intn(3) == 0})
+		}
+	}
+	// size-dependent loader/saver paths: record counts around the loader's 0x10000-record packs (6
+	// pools) and the saver's 64 KiB chunks, tiny records plus a few larger than the chunk / bufio sizes
+	bulk := func(kind string, n int) {
+		scs = append(scs, &scenario{Kind: kind, Seed: rs.U64(), NRec: n, BaseH: 800000, Bulk: true, RealAlloc: rs.Intn(4) == 0})
+	}
+	if !run.Thorough() {
+		kl := []string{"K-bulk-plain", "L-bulk-compressed"}
+		bulk(kl[run.Seed&1], 65537)
+		bulk(kl[1-run.Seed&1], 131073)
+	} else {
+		for _, n := range []int{65535, 65536, 65537, 131071, 131072, 131073, 196609, 6*65536 + 5} {
+			bulk("K-bulk-plain", n)
+			bulk("L-bulk-compressed", n)
+		}
+		bulk("M-bulk-plain-idle-then-close", 131073)
+		bulk("M-bulk-plain-idle-then-close", 65536)
+	}
+	// bulk scenarios first: they are the longest jobs
+	for i := len(scs) - 1; i >= 0; i-- {
+		if scs[i].Bulk {
+			sc := scs[i]
+			jobs = append([]func(){func() { sr.runScenario(sc) }}, jobs...)
 		}
 	}
 	for _, sc := range scs {
 		sc := sc
+		if sc.Bulk {
+			continue
+		}
 		jobs = append(jobs, func() { sr.runScenario(sc) })
 	}
 	run.Extra("snapshot_scenarios", len(scs))
